@@ -397,7 +397,8 @@ class Prop(PropBase):
     def violation_class(self, feats):
         if feats.get("zone", "none") != "none":
             return {"kind": feats["kind"], "zone": feats["zone"]}
-        return {k: feats.get(k) for k in ("kind", "memtype", "zone", "transparent", "read_on_resp", "gran_multi")}
+        return {"kind": feats["kind"], "zone": "none", "multiport_memory": feats.get("memtype") != "Memory",
+                "read_on_resp": feats.get("read_on_resp"), "gran_multi": feats.get("gran_multi")}
 
     def cfg_signature(self, cfg):
         return [cfg[k] for k in ("memtype", "depth", "width", "elems", "nr", "nw", "gran", "transparent", "read_on_resp",
